@@ -1,6 +1,6 @@
 /-
   PINS of property C18: the decision tokens of every item the property is anchored in
-  (properties.jsonl `anchors` + tools/anchor_extra.json), as they were in /repo at b30ed81 when the
+  (properties.jsonl `anchors` + tools/anchor_extra.json), as they were in /repo at 770977e when the
   model was validated against the source.  Written by tools/pin_anchors.py; the right-hand sides are
   compared by the kernel with lean/Chrono/Extracted/Anchors.lean, which tools/extractors/anchors.py
   regenerates from /repo's working tree on every check.  A theorem that fails here means: anchored
@@ -9,6 +9,18 @@
 import Chrono.Extracted.Anchors
 namespace Chrono.Pins.C18
 open Chrono.Extracted.Anchors
+
+/-- src/offset/local/mod.rs:fn now -/
+theorem src_offset_local_mod_rs_fn_now : C18_src_offset_local_mod_rs_fn_now =
+    ["->", "DateTime", "<", "Local", ">", "Utc", "now(", "with_timezone(", "&", "Local"] := by decide +kernel
+
+/-- src/offset/local/mod.rs:fn offset_from_local_datetime -/
+theorem src_offset_local_mod_rs_fn_offset_from_local_datetime : C18_src_offset_local_mod_rs_fn_offset_from_local_datetime =
+    ["v1", "&", "NaiveDateTime", "->", "MappedLocalTime", "<", "FixedOffset", ">", "MappedLocalTime", "Single(", "FixedOffset", "east_opt(", "0", "unwrap(", "§", "v1", "&", "NaiveDateTime", "->", "MappedLocalTime", "<", "FixedOffset", ">", "v2", "v1", "year(", "if", "v2", "<", "100", "v3", "v2", "-", "100", "div_euclid(", "400", "v2", "-=", "v3", "*", "400", "v4", "v5", "Date", "new_with_year_month_day_hr_min_sec(", "v2", "as", "u32", "v1", "month0(", "as", "i32", "v1", "day(", "as", "i32", "v1", "hour(", "as", "i32", "v1", "minute(", "as", "i32", "v1", "second(", "as", "i32", "v6", "v4", "get_timezone_offset(", "MappedLocalTime", "Single(", "FixedOffset", "west_opt(", "v6", "as", "i32", "*", "60", "unwrap(", "§", "&", "self", "v1", "&", "NaiveDateTime", "->", "MappedLocalTime", "<", "FixedOffset", ">", "v2", "offset_from_local_datetime(", "v1"] := by decide +kernel
+
+/-- src/offset/local/mod.rs:fn offset_from_utc_datetime -/
+theorem src_offset_local_mod_rs_fn_offset_from_utc_datetime : C18_src_offset_local_mod_rs_fn_offset_from_utc_datetime =
+    ["v1", "&", "NaiveDateTime", "->", "MappedLocalTime", "<", "FixedOffset", ">", "MappedLocalTime", "Single(", "FixedOffset", "east_opt(", "0", "unwrap(", "§", "v1", "&", "NaiveDateTime", "->", "MappedLocalTime", "<", "FixedOffset", ">", "v2", "v3", "Date", "from(", "v1", "and_utc(", "get_timezone_offset(", "MappedLocalTime", "Single(", "FixedOffset", "west_opt(", "v2", "as", "i32", "*", "60", "unwrap(", "§", "&", "self", "v1", "&", "NaiveDateTime", "->", "FixedOffset", "v2", "offset_from_utc_datetime(", "v1", "unwrap("] := by decide +kernel
 
 /-- src/offset/local/tz_info/timezone.rs:const ZONE_INFO_DIRECTORIES -/
 theorem src_offset_local_tz_info_timezone_rs_const_ZONE_INFO_DIRECTORIES : C18_src_offset_local_tz_info_timezone_rs_const_ZONE_INFO_DIRECTORIES =
@@ -44,11 +56,19 @@ theorem src_offset_local_unix_rs_fn_fallback_timezone : C18_src_offset_local_uni
 
 /-- src/offset/local/unix.rs:fn new -/
 theorem src_offset_local_unix_rs_fn_new : C18_src_offset_local_unix_rs_fn_new =
-    ["v1", "Option", "<", "&", "str", ">", "->", "Source", "match", "v1", "Some(", "v2", "=>", "v3", "v4", "DefaultHasher", "new(", "v3", "write(", "v2", "as_bytes(", "v5", "v3", "finish(", "Source", "Environment", "v5", "None", "=>", "match", "v6", "symlink_metadata(", "\"…\"", "Ok(", "v7", "=>", "Source", "LocalTime", "v8", "v7", "modified(", "unwrap_or_else(", "|", "v9", "|", "SystemTime", "now(", "Err(", "v9", "=>", "Source", "LocalTime", "v8", "SystemTime", "now("] := by decide +kernel
+    ["v1", "Option", "<", "&", "str", ">", "->", "Source", "match", "v1", "Some(", "v2", "=>", "Source", "Environment", "v2", "v2", "to_owned(", "None", "=>", "match", "v3", "symlink_metadata(", "\"…\"", "Ok(", "v4", "=>", "Source", "LocalTime", "v5", "v4", "modified(", "unwrap_or_else(", "|", "v6", "|", "SystemTime", "now(", "Err(", "v6", "=>", "Source", "LocalTime", "v5", "SystemTime", "now("] := by decide +kernel
 
 /-- src/offset/local/unix.rs:fn offset -/
 theorem src_offset_local_unix_rs_fn_offset : C18_src_offset_local_unix_rs_fn_offset =
     ["v1", "&", "NaiveDateTime", "v2", "bool", "->", "MappedLocalTime", "<", "FixedOffset", ">", "TZ_INFO", "with(", "|", "v3", "|", "v3", "borrow_mut(", "get_or_insert_with(", "Cache", "v4", "offset(", "*", "v1", "v2", "§", "&", "self", "v1", "NaiveDateTime", "v2", "bool", "->", "MappedLocalTime", "<", "FixedOffset", ">", "v3", "SystemTime", "now(", "match", "v3", "duration_since(", "self", "v4", "Ok(", "v1", "if", "v1", "as_secs(", "<", "1", "=>", "Ok(", "v5", "|", "Err(", "v5", "=>", "v6", "v7", "var(", "\"TZ\"", "ok(", "v8", "v6", "as_deref(", "v9", "Source", "new(", "v8", "v10", "match(", "&", "self", "v11", "&", "v9", "Source", "Environment", "..", "Source", "LocalTime", "..", "|", "Source", "LocalTime", "..", "Source", "Environment", "..", "=>", "true", "Source", "LocalTime", "v12", "v13", "Source", "LocalTime", "v12", "if", "v13", "!=", "v12", "=>", "true", "Source", "Environment", "v14", "v15", "Source", "Environment", "v14", "if", "v15", "!=", "v14", "=>", "true", "v5", "=>", "false", "if", "v10", "self", "v16", "current_zone(", "v8", "self", "v4", "v3", "self", "v11", "v9", "if", "!", "v2", "v17", "self", "v16", "find_local_time_type(", "v1", "and_utc(", "timestamp(", "expect(", "\"…\"", "offset(", "return", "match", "FixedOffset", "east_opt(", "v17", "Some(", "v17", "=>", "MappedLocalTime", "Single(", "v17", "None", "=>", "MappedLocalTime", "None", "self", "v16", "find_local_time_type_from_local(", "v1", "expect(", "\"…\"", "and_then(", "|", "v18", "|", "FixedOffset", "east_opt(", "v18", "offset("] := by decide +kernel
+
+/-- src/offset/local/unix.rs:fn offset_from_local_datetime -/
+theorem src_offset_local_unix_rs_fn_offset_from_local_datetime : C18_src_offset_local_unix_rs_fn_offset_from_local_datetime =
+    ["v1", "&", "NaiveDateTime", "->", "MappedLocalTime", "<", "FixedOffset", ">", "offset(", "v1", "true"] := by decide +kernel
+
+/-- src/offset/local/unix.rs:fn offset_from_utc_datetime -/
+theorem src_offset_local_unix_rs_fn_offset_from_utc_datetime : C18_src_offset_local_unix_rs_fn_offset_from_utc_datetime =
+    ["v1", "&", "NaiveDateTime", "->", "MappedLocalTime", "<", "FixedOffset", ">", "offset(", "v1", "false"] := by decide +kernel
 
 /-- callee src/datetime/mod.rs:fn from_naive_utc_and_offset -/
 theorem callee_src_datetime_mod_rs_fn_from_naive_utc_and_offset : C18_callee_src_datetime_mod_rs_fn_from_naive_utc_and_offset =
@@ -61,6 +81,10 @@ theorem callee_src_naive_datetime_mod_rs_fn_and_utc : C18_callee_src_naive_datet
 /-- callee src/offset/fixed.rs:fn east_opt -/
 theorem callee_src_offset_fixed_rs_fn_east_opt : C18_callee_src_offset_fixed_rs_fn_east_opt =
     ["v1", "i32", "->", "Option", "<", "FixedOffset", ">", "if", "-", "86400", "<", "v1", "&&", "v1", "<", "86400", "Some(", "FixedOffset", "v2", "v1", "else", "None"] := by decide +kernel
+
+/-- callee src/offset/fixed.rs:fn west_opt -/
+theorem callee_src_offset_fixed_rs_fn_west_opt : C18_callee_src_offset_fixed_rs_fn_west_opt =
+    ["v1", "i32", "->", "Option", "<", "FixedOffset", ">", "if", "-", "86400", "<", "v1", "&&", "v1", "<", "86400", "Some(", "FixedOffset", "v2", "-", "v1", "else", "None"] := by decide +kernel
 
 /-- callee src/offset/local/tz_info/parser.rs:fn peek -/
 theorem callee_src_offset_local_tz_info_parser_rs_fn_peek : C18_callee_src_offset_local_tz_info_parser_rs_fn_peek =
